@@ -112,7 +112,7 @@ def rule_arity(ctx: Ctx) -> int:
 def run(ctx: Ctx) -> None:
     tree = ctx.tree
     n = rule_cfg_level(ctx)
-    ctx.floor("C15.CFG-LEVEL", n, 4)
+    ctx.floor("C15.CFG-LEVEL", n, 2)
     n = rule_arity(ctx)
     ctx.floor("C15.ARITY", n, 15)
     from ..rules_sm import rule_step_key
